@@ -23,6 +23,10 @@ type ReplayFile struct {
 	Shrink     map[string]int `json:"shrink,omitempty"`
 	Original   int            `json:"original_tape_len"`
 	Note       string         `json:"note,omitempty"`
+	// GOMAXPROCS of the worker process that found the violation; replay sets
+	// it before executing (code that uses sync.Pool or per-processor state
+	// behaves differently under another value)
+	GOMAXPROCS int `json:"gomaxprocs,omitempty"`
 	// Prelude: tapes of earlier runs of the same worker process that have to
 	// be executed, in this order and in the same process, before Tape (state
 	// of the code under test that survives between runs: the failing history
